@@ -54,7 +54,7 @@ fn gen_case(seed: &Rng, i: u64, tier: &str) -> (String, Vec<String>) {
 }
 
 /// partition modes (c18 / c19): dump the flat graph, run the real partitioner, evaluate the oracle
-fn run_partition_case(rec: &mut Recorder, mode: &str, n: u64, tag: &str, plines: &[String]) {
+pub fn run_partition_case(rec: &mut Recorder, mode: &str, n: u64, tag: &str, plines: &[String]) {
     rec.case(n, tag);
     for l in plines {
         rec.line(l, "ok");
@@ -144,7 +144,13 @@ fn run_partition_case(rec: &mut Recorder, mode: &str, n: u64, tag: &str, plines:
             rec.count(&format!("partition-panic-{w}"));
         }
     }
-    if mode == "c19" {
+    if mode == "c42" {
+        if let POut::Panic(w) = &out {
+            if w != "conflicted-refs" && w != "no-merge-pair-same-node" {
+                rec.check(false, &format!("c42-panic@{w}"), "partition_graph panicked");
+            }
+        }
+    } else if mode == "c19" {
         oracle::check_c19(rec, &flat, &out);
     } else if let POut::Ok(pv) = &out {
         oracle::check_c18(rec, &flat, pv);
@@ -179,6 +185,7 @@ fn main() {
             })
             .collect()
     };
+    let mut hashes: Vec<String> = Vec::new();
     for (n, tag, plines) in &cases {
         match a.mode.as_str() {
             "c18" | "c19" => run_partition_case(&mut rec, &a.mode, *n, tag, plines),
@@ -189,7 +196,7 @@ fn main() {
                     rewrite::run_c20_case(&mut rec, *n, tag, plines)
                 }
             }
-            "c42" => rewrite::run_c42_case(&mut rec, *n, tag, plines, &a),
+            "c42" => rewrite::run_c42_case(&mut rec, *n, tag, plines, &a, &mut hashes),
             m => {
                 eprintln!("unknown mode {m}");
                 std::process::exit(2)
@@ -197,4 +204,8 @@ fn main() {
         }
     }
     rec.finish(&a.out);
+    if a.mode == "c42" {
+        // one line per case: hashes of generated code and of graph JSON + renderings (compared across processes)
+        std::fs::write(a.out.join("hashes.txt"), hashes.join("\n") + "\n").unwrap();
+    }
 }
